@@ -243,7 +243,7 @@ def work(span: Tuple[int, int, int]) -> Dict[str, Any]:
                                   "observed": {"text": None, "exception": err},
                                   "key": f"abort:{origin}:{[p[0] for p in rec['params']]}:{[p[1] for p in rec['params']]}"})
 
-    def judge(rec: Dict[str, Any], ex: Dict[str, Any], text: str, origin: str, src: str) -> None:
+    def judge(rec: Dict[str, Any], ex: Dict[str, Any], text: str, origin: str, src: str, more: Optional[Dict[str, Any]] = None) -> None:
         want = expected_of(rec, ex)
         got = read_back(text)
         failed = []
@@ -261,7 +261,7 @@ def work(span: Tuple[int, int, int]) -> Dict[str, Any]:
         if failed:
             out["violations"].append({"invariant": failed[0], "failed": failed, "origin": origin, "input": src,
                                       "layout": {"params": rec["params"], "ret": rec["ret"]},
-                                      "expected": want, "observed": {"text": text, "read_back": got},
+                                      "expected": want, "observed": {"text": text, "read_back": got}, **(more or {}),
                                       "key": f"{origin}:{failed}:{[p[0] for p in rec['params']]}:{[p[1] for p in rec['params']]}:{rec['ret']}"})
             return
         mt = model_text(rec, ex)
@@ -295,14 +295,15 @@ def work(span: Tuple[int, int, int]) -> Dict[str, Any]:
             src = write_def(f"g{lo}_{gi}", cases[k], exs[k], deco="@overload\n", body="...")
             text = flatten_text(format_signature(ovs[j])) if j < len(ovs) else "<missing overload>"
             out["n_overloads"] += 1
-            judge(cases[k], exs[k], text, "overload", src)
+            grp_src = {"group_src": "\n".join(own + [f"def g{lo}_{gi}(*args, **kwargs): pass"]), "index": j}
+            judge(cases[k], exs[k], text, "overload", src, grp_src)
             # the presentation of the overload on the page is `def name<signature>:`
             shown = page[j] if j < len(page) else "<missing>"
             if shown != f"def g{lo}_{gi}{text}:":
                 out["violations"].append({"invariant": "OverloadShowsOwnSignature", "failed": ["OverloadShowsOwnSignature"],
                                           "origin": "overload-page", "input": src,
                                           "layout": {"params": cases[k]["params"], "ret": cases[k]["ret"]},
-                                          "expected": f"def g{lo}_{gi}{text}:", "observed": {"text": shown},
+                                          "expected": f"def g{lo}_{gi}{text}:", "observed": {"text": shown}, **grp_src,
                                           "key": f"overload-page:{[p[0] for p in cases[k]['params']]}"})
         if gi == 0 and grp:
             out["samples"].append({"overloads": [write_def("g", cases[k], exs[k]) for k in grp], "displayed": page})
@@ -466,7 +467,8 @@ def replay(ctx: Ctx, path: str) -> int:
     pre = "from typing import overload, List, Optional, Dict, Callable, Tuple, Literal\nimport typing\n"
     is_ov = w["origin"].startswith("overload")
     name = src.split("def ", 1)[1].split("(", 1)[0]
-    b.addModuleString(pre + src + ("\ndef %s(*args, **kwargs): pass\n" % name if is_ov else "\n"), modname="m")
+    j = w.get("index", 0)
+    b.addModuleString(pre + (w["group_src"] if is_ov and "group_src" in w else src) + "\n", modname="m")
     try:
         b.buildModules()
     except Exception as e:
@@ -476,12 +478,12 @@ def replay(ctx: Ctx, path: str) -> int:
         return 1
     fn = system.allobjects[f"m.{name}"]
     if w["origin"] == "overload-page":
-        text = flatten_text(format_signature(fn.overloads[0]))
+        text = flatten_text(format_signature(fn.overloads[j]))
         page = [x for x in (flatten_text(y) for y in format_overloads(fn)) if x.startswith("def ")]
-        bad = page[:1] != [f"def {name}{text}:"]
+        bad = page[j:j + 1] != [f"def {name}{text}:"]
         got: Any = page
     else:
-        text = flatten_text(format_signature(fn.overloads[0] if is_ov else fn))
+        text = flatten_text(format_signature(fn.overloads[j] if is_ov else fn))
         got = read_back(text)
         bad = got != w["expected"]
     print("replay:", f"still violated: displayed {text!r}" if bad else "holds now")
